@@ -377,6 +377,12 @@ var classPool = []*Class{
 	{Neg: true, Ranges: [][2]byte{{'A', 'Z'}}, Singles: []byte{'x', 'm', 'z'}, Hyphen: true},
 	{Neg: true, Ranges: [][2]byte{{0x00, 0x20}}},
 	{Ranges: [][2]byte{{0x21, 0x7e}}},
+	// the literal hyphen first: "[-.]", "[^-.]", "[^- ]", "[^-a-z]", "[-a-f0-9]"
+	{Singles: []byte{'.'}, Hyphen: true, HyphenFirst: true},
+	{Neg: true, Singles: []byte{'.'}, Hyphen: true, HyphenFirst: true},
+	{Neg: true, Singles: []byte{' '}, Hyphen: true, HyphenFirst: true},
+	{Neg: true, Ranges: [][2]byte{{'a', 'z'}}, Hyphen: true, HyphenFirst: true},
+	{Ranges: [][2]byte{{'a', 'f'}, {'0', '9'}}, Hyphen: true, HyphenFirst: true},
 }
 
 var boundaryPool = []string{"[", "] - ", "]", ":", "/", ".", ", ", "<{", "}", " ", "=", "(", ")", "$", "--", "] ", "task=", "é", "*", "\\", ".log.", "::"}
